@@ -44,7 +44,25 @@ def one(args):
 
 
 def main():
+    global HERE
     root = sys.argv[1]
+    # run from a snapshot of the checker, so that editing /verif while a matrix runs cannot produce transient errors
+    base = '/dev/shm' if os.path.isdir('/dev/shm') else tempfile.gettempdir()
+    snap = tempfile.mkdtemp(prefix='twsnap-', dir=base)
+    real = HERE
+    shutil.copy(os.path.join(real, 'check.py'), snap)
+    shutil.copytree(os.path.join(real, 'twverif'), os.path.join(snap, 'twverif'), ignore=shutil.ignore_patterns('__pycache__'))
+    for extra in ('known_findings.json', 'properties.jsonl'):
+        if os.path.exists(os.path.join(real, extra)):
+            shutil.copy(os.path.join(real, extra), snap)
+    HERE = snap
+    try:
+        _main(root, real)
+    finally:
+        shutil.rmtree(snap, ignore_errors=True)
+
+
+def _main(root, real):
     jobs = int(sys.argv[sys.argv.index('--jobs') + 1]) if '--jobs' in sys.argv else 16
     work = []
     for pid in sorted(os.listdir(root)):
@@ -68,7 +86,7 @@ def main():
         own = seed.split('/')[0]
         row = ' '.join({0: ' .', 1: ' X', 2: ' ?'}.get(out[p][0], ' !') for p in PIDS)
         print(f"{seed:9s} {'HIT ' if out[own][0] == 1 else ('ERR ' if out[own][0] == 2 else 'miss')} {row}")
-    json.dump(res, open(os.path.join(HERE, 'tools', 'matrix_last.json'), 'w'), indent=1)
+    json.dump(res, open(os.path.join(real, 'tools', 'matrix_last.json'), 'w'), indent=1)
 
 
 if __name__ == '__main__':
